@@ -169,7 +169,7 @@ Fixpoint run_ops (c : mcfg) (st : mstate) (ops : list sx) : list sx :=
     let kind := sx_str (sx_nth 0 op) in
     if str_eqb kind (bytes "req"%string) then
       let q := dec_req (sx_nth 1 op) in
-      let o := caching_func 12 c st q None [] None false [] in
+      let o := caching_func 16 c st q None [] None false [q_host q ++ q_uri q] [] in
       L [enc_client (blank_head_body (q_method q) (cf_client o)); L (map enc_dlv (cf_log o)); enc_disk (ms_disk (cf_state o))]
         :: run_ops c (cf_state o) rest
     else if str_eqb kind (bytes "adv"%string) then
